@@ -14,7 +14,7 @@ ids = args or sorted(os.listdir("/verif/seeded"))
 def one(sid):
     d = os.path.join("/verif/seeded", sid)
     prop = json.load(open(os.path.join(d, "meta.json")))["breaks_property"]
-    r = subprocess.run(["python3", "/verif/tools/try_seed.py", d, prop], capture_output=True, text=True)
+    r = subprocess.run(["python3", "/verif/tools/try_seed.py", d, prop, "--workers", "6"], capture_output=True, text=True)
     out = r.stdout
     verdict = "CAUGHT" if "\nCAUGHT" in "\n" + out else ("NOAPPLY" if "DOES NOT APPLY" in out else ("HARNESS-ERROR" if "HARNESS-ERROR" in out else "MISSED"))
     demo = [l for l in out.splitlines() if l.startswith("demo clean")]
